@@ -1382,6 +1382,26 @@ def template_input(inputfile, dumpfile, flux=False, verbose=False):
     verbose : :class:`bool`, optional
         If ``True``, print lots of extra information.
     """
+    #
+    # template_metadata() sets RUN2D and RUN1D; make sure they are restored
+    # to their original state even if something fails along the way.
+    #
+    orig_run = dict([(r, os.environ.get(r)) for r in ('RUN2D', 'RUN1D')])
+    try:
+        _template_input(inputfile, dumpfile, flux=flux, verbose=verbose)
+    finally:
+        for r in orig_run:
+            if orig_run[r] is None:
+                if r in os.environ:
+                    del os.environ[r]
+            else:
+                os.environ[r] = orig_run[r]
+    return
+
+
+def _template_input(inputfile, dumpfile, flux=False, verbose=False):
+    """Does the actual work of :func:`~pydl.pydlspec2d.spec1d.template_input`.
+    """
     import pickle
     from astropy.constants import c as cspeed
     from .. import __version__ as pydl_version
